@@ -55,6 +55,13 @@ def cases(ctx):
 
 
 def apply(op, g, model):
+    if model is not None and type(model).__name__ == 'Model' and not model.roles and op in ('re', 'de'):
+        # for the default model the argument may be None (documented default)
+        a = transform.reify_edges(g, None) if op == 're' else transform.dereify_edges(g, None)
+        b = transform.reify_edges(g, model) if op == 're' else transform.dereify_edges(g, model)
+        if a.triples != b.triples or a.top != b.top:
+            raise AssertionError('model=None differs from the default model')
+        return b
     if op == 're':
         return transform.reify_edges(g, model)
     if op == 'de':
